@@ -353,8 +353,10 @@ class HistogramND(HistogramBase):
             return ixbins
 
     def fill(self, value: ArrayLike, weight: float = 1, **kwargs):
-        self._coerce_dtype(type(weight))
         value_array = np.asarray(value)
+        if value_array.dtype.kind == "f" and np.isnan(value_array).any():
+            return None  # Not an observation (as in fill_n and in the constructors)
+        self._coerce_dtype(type(weight))
         for i, binning in enumerate(self._binnings):
             if binning.is_adaptive():
                 bin_map = binning.force_bin_existence(value_array[i])
